@@ -96,6 +96,9 @@ class ExprMixin:
             return lambda env: env.rt.frame.old[j]
         if lq is None and scope.rvars is not None and lname in scope.rvars:
             return lambda env: env.rt.frame.vars[lname]
+        if lq is None and getattr(scope, 'alias_first', False) and lname in scope.aliases:
+            # HAVING / ORDER BY: select-list aliases are searched before the columns of the FROM tables
+            return scope.aliases[lname]
         depth = 0
         s = scope
         while s is not None:
